@@ -213,7 +213,14 @@ pub fn run(a: &Args) -> Value {
                     }
                     // (this closure runs on the poller's own thread: the failures are armed for it)
                     let (fe, fn_) = sh.phc_read_failures.lock().unwrap().get(k).cloned().unwrap_or((0, 0));
-                    vworld::meter::fail_reads_of(PHC_FILE, fe, fn_);
+                    if fe == -1 {
+                        // short reads: each read() of the file returns at most fn_ bytes
+                        vworld::meter::fail_reads_of(PHC_FILE, 0, 0);
+                        vworld::meter::short_reads_of(PHC_FILE, fn_ as usize);
+                    } else {
+                        vworld::meter::short_reads_of(PHC_FILE, 0);
+                        vworld::meter::fail_reads_of(PHC_FILE, fe, fn_);
+                    }
                     *sh.mode.lock().unwrap() = act;
                     match act {
                         Action::Vanish => {
@@ -259,7 +266,10 @@ pub fn run(a: &Args) -> Value {
         let phc_plan: Vec<Option<i64>> = if with_phc { (0..script.len()).map(|_| if rng.chance(1, 8) { None } else { Some(*rng.pick(&[0i64, 1, 250, 12345, 31_000, 3_000_000])) }).collect() } else { Vec::new() };
         *sh.phc_plan.lock().unwrap() = phc_plan.clone();
         // Reads of the file failing: once or twice (an implementation may retry), or throughout the poll.
-        let read_failures: Vec<(i32, u32)> = (0..script.len()).map(|_| if with_phc && rng.chance(1, 5) {
+        let read_failures: Vec<(i32, u32)> = (0..script.len()).map(|_| if with_phc && rng.chance(1, 8) {
+            // the value arrives in pieces of 1, 2 or 3 bytes
+            (-1, 1 + rng.below(3) as u32)
+        } else if with_phc && rng.chance(1, 5) {
             let times = *rng.pick(&[1u32, 2, 1000, 1000]);
             (if times >= 1000 { *rng.pick(&[libc::EAGAIN, libc::EBUSY, libc::ENOMEM, libc::EIO, libc::EACCES, libc::ENODEV]) } else { *rng.pick(&[libc::EINTR, libc::EAGAIN, libc::EBUSY, libc::EIO]) }, times)
         } else { (0, 0) }).collect();
@@ -316,7 +326,9 @@ pub fn run(a: &Args) -> Value {
                 Action::Answer | Action::SlowAnswer(_) => if let Some(None) = phc_now { "PhcErrorBoundRetrievalFailedGracePeriod" } else { "ClockErrorBoundData" },
                 _ => if t_end - last_good < 5 * NS as i64 { "ChronyNotRespondingGracePeriod" } else { "ChronyNotResponding" },
             };
-            if answered && file_there && fail_times > 0 {
+            if answered && file_there && fail_errno == -1 {
+                *kinds.entry(format!("phc-short-reads-of-{}-bytes", fail_times)).or_insert(0) += 1;
+            } else if answered && file_there && fail_times > 0 {
                 *kinds.entry(format!("phc-read-fails-errno{}-x{}", fail_errno, fail_times)).or_insert(0) += 1;
                 if fail_times >= 1000 {
                     // no read of this poll succeeded: there is no PHC bound to publish
@@ -358,7 +370,7 @@ pub fn run(a: &Args) -> Value {
     sh.stop.store(true, Ordering::SeqCst);
     let _ = srv.join();
     clock::uninstall();
-    let mut v = json!({"phc_read_failures_injected": vworld::meter::READ_FAILURES_INJECTED.load(Ordering::Relaxed), "evaluations": evaluations, "distinct": distinct.len(), "steps": steps, "kinds": kinds, "threshold_edges": edges, "coarse_reads": sh.coarse_reads.load(Ordering::SeqCst), "violations": violations, "samples": samples});
+    let mut v = json!({"phc_short_reads_injected": vworld::meter::SHORT_READS_INJECTED.load(Ordering::Relaxed), "phc_read_failures_injected": vworld::meter::READ_FAILURES_INJECTED.load(Ordering::Relaxed), "evaluations": evaluations, "distinct": distinct.len(), "steps": steps, "kinds": kinds, "threshold_edges": edges, "coarse_reads": sh.coarse_reads.load(Ordering::SeqCst), "violations": violations, "samples": samples});
     if let Some(e) = inconclusive {
         v["inconclusive"] = json!(e);
     }
